@@ -257,6 +257,15 @@ func (t *SessionTeardown) cleanup(session *Session, cause TerminateCause) error 
 	t.mu.Lock()
 	defer t.mu.Unlock()
 
+	// A session is torn down once: a repeated or concurrent termination has no further effect
+	session.mu.Lock()
+	if session.tornDown {
+		session.mu.Unlock()
+		return nil
+	}
+	session.tornDown = true
+	session.mu.Unlock()
+
 	ctx, cancel := context.WithTimeout(context.Background(), t.config.CleanupTimeout)
 	defer cancel()
 
